@@ -7,7 +7,11 @@ import (
 	"io"
 	"os"
 	"os/exec"
+	"runtime"
 	"sync"
+	"time"
+
+	wtext "github.com/benoitkugler/webrender/text"
 
 	"wrverif/render"
 	"wrverif/res"
@@ -41,6 +45,9 @@ func WorkerMain(mode string) int {
 	if mode == "race" {
 		return raceWorker(repo)
 	}
+	if mode == "scan" {
+		return scanWorker(repo)
+	}
 	if mode == "shard" {
 		return ShardMain(repo)
 	}
@@ -51,6 +58,7 @@ func WorkerMain(mode string) int {
 	out := bufio.NewWriter(os.Stdout)
 	enc := json.NewEncoder(out)
 	kept := map[int]Trace{}
+	wfonts, _ := render.NewFonts(repo) // one configuration per process (see runner.fonts)
 	for {
 		line, err := in.ReadBytes('\n')
 		if len(line) > 0 {
@@ -60,7 +68,7 @@ func WorkerMain(mode string) int {
 			}
 			switch q.Op {
 			case "render":
-				t := renderTrace(q.HTML, nil, repo)
+				t := renderTrace(q.HTML, wfonts, repo)
 				kept[q.ID] = t
 				h := t.hashes()
 				enc.Encode(wAns{ID: q.ID, Raw: h.raw, Canon: h.canon, Crash: h.crash})
@@ -241,8 +249,14 @@ func (p *freshPool) wait(base []hashes) {
 			}
 			detail := fmt.Sprintf("fresh process #%d, render number %d of that process, versus the in-process reference", k, p.pos[i][k]+1)
 			if g.crash != base[i].crash {
+				key := "outcome"
+				p.rn.mu.Lock()
+				if k := p.rn.attribute(d); k != "" {
+					key = k
+				}
+				p.rn.mu.Unlock()
 				out.Add(res.Finding{Kind: "judge", Op: "judge:fresh-process", Input: d.HTML, Impl: g.crash, Model: base[i].crash,
-					Reason: "the same document completed in one process and did not in the other (" + detail + ")", Key: "outcome", Seed: d.Seed})
+					Reason: "the same document completed in one process and did not in the other (" + detail + ")", Key: key, Seed: d.Seed})
 				continue
 			}
 			if g.canon == base[i].canon {
@@ -259,7 +273,7 @@ func (p *freshPool) wait(base []hashes) {
 				continue
 			}
 			// re-render here for the reference text; the worker's text if it was fetched, else from a new worker
-			ref := renderTrace(d.HTML, nil, p.rn.repo)
+			ref := renderTrace(d.HTML, p.rn.fonts(0), p.rn.repo)
 			got := p.tr[i][k]
 			if got == nil {
 				got = p.oneShot(d)
@@ -311,8 +325,18 @@ func probeWorker(repo string) int {
 	var first *Trace
 	seen := map[string]int{}
 	seenCanon := map[string]int{}
+	var shared wtext.FontConfiguration
+	if os.Getenv("WRH_C15_SHAREDFONTS") != "" {
+		shared, _ = render.NewFonts(repo)
+	}
 	for i := 0; i < k; i++ {
-		t := renderTrace(string(src), nil, repo)
+		t := renderTrace(string(src), shared, repo)
+		if i%100 == 99 && os.Getenv("WRH_C15_MEM") != "" {
+			var ms runtime.MemStats
+			runtime.GC()
+			runtime.ReadMemStats(&ms)
+			fmt.Printf("after %d renders: heap in use %d MB, objects %d\n", i+1, ms.HeapInuse>>20, ms.HeapObjects)
+		}
 		if t.Crash != "" {
 			fmt.Println("crash:", t.Crash)
 			return 1
@@ -334,5 +358,31 @@ func probeWorker(repo string) int {
 		}
 	}
 	fmt.Printf("renders=%d distinct-raw=%d distinct-canon=%d pages=%d\n", k, len(seen), len(seenCanon), first.Pages)
+	return 0
+}
+
+// scanWorker: debugging aid — renders every document of a tier once and prints the slow ones
+// (WRH_C15_SCAN="tier seed k n": documents i with i%n == k); stops at the first timeout.
+func scanWorker(repo string) int {
+	var tier string
+	var seed uint64
+	var k, n int
+	fmt.Sscan(os.Getenv("WRH_C15_SCAN"), &tier, &seed, &k, &n)
+	renderTimeout = 30 * time.Second
+	for i, d := range allDocs(tier, seed) {
+		if n > 0 && i%n != k {
+			continue
+		}
+		t0 := time.Now()
+		t := renderTrace(d.HTML, nil, repo)
+		dt := time.Since(t0)
+		if dt > 2*time.Second || t.Crash == "timeout" {
+			fmt.Printf("doc %d seed %d: %.1fs pages=%d crash=%q len=%d\n", i, d.Seed, dt.Seconds(), t.Pages, t.Crash, len(d.HTML))
+			os.WriteFile(fmt.Sprintf("/tmp/c15/slow_%d.html", i), []byte(d.HTML), 0o644)
+		}
+		if t.Crash == "timeout" {
+			return 1
+		}
+	}
 	return 0
 }
